@@ -1,9 +1,10 @@
 """C09 - EBNF canonicalisation preserves the language (engine G, translation validation)."""
-import os, json, random
-from lib.common import Run, tier, seed, known_for
-from engine_g import pipeline as P
 from engine_g.par_reader import read_par
 from checks import g_lang as GL
+
+
+def pick(a):
+    return (a["grammar"], a["u"]) if a.get("u") else None
 
 
 def structural(src_path, u_path):
@@ -19,76 +20,23 @@ def structural(src_path, u_path):
         cnt[lhs] = cnt.get(lhs, 0) + 1
     for nt, n in alts.items():
         if cnt.get(nt, 0) != n:
-            issues.append("non-terminal %s has %d alternatives as written but %d productions after canonicalisation (helper name clash or lost alternative)" % (nt, n, cnt.get(nt, 0)))
+            issues.append({"key": "alts:" + nt, "text": "non-terminal %s has %d alternatives as written but %d productions after canonicalisation (helper name clash or lost alternative)" % (nt, n, cnt.get(nt, 0))})
     if not gu.is_plain_bnf():
-        issues.append("canonicalised grammar still contains EBNF constructs")
+        issues.append({"key": "ebnf-left", "text": "canonicalised grammar still contains EBNF constructs"})
     if gu.start != gs.start:
-        issues.append("start symbol changed: %s -> %s" % (gs.start, gu.start))
+        issues.append({"key": "start", "text": "start symbol changed: %s -> %s" % (gs.start, gu.start)})
     return issues
 
 
-def main(prop="C09"):
-    run = Run(prop, "translation_validation")
-    N = 6 if tier() == "quick" else 10
-    files = GL.select(P.corpus())
-    random.Random(seed()).shuffle(files)
-    arts = GL.generate(files)
-    ok, info = GL.validate_encoder(sorted(f for f in files if f.startswith("/verif/grammars/")) or files)
-    if not ok:
-        run.inconc("encoder self-validation failed: %s" % info)
-    tasks, skipped = [], []
-    for a in arts:
-        if a["rc"] != 0 or not a.get("u"):
-            skipped.append({"grammar": a["grammar"], "why": "rejected by parol (rc=%s)" % a["rc"]})
-            continue
-        tasks.append({"grammar": a["grammar"], "a": a["grammar"], "b": a["u"], "N": N, "label": "source vs parol -u"})
-    res = GL.run_pairs(tasks)
-    known = known_for(prop)
-    samples, disagreements, programs = [], 0, 0
-    tsolver = 0.0
-    for r in res:
-        tsolver += r.get("solver_s", 0)
-        if r["status"] == "unsat":
-            programs += 1
-            iss = structural(r["a"], r["b"])
-            for i in iss:
-                disagreements += 1
-                run.violation("%s: %s" % (r["grammar"], i), {"grammar": r["grammar"], "issue": i, "kind": "structural"})
-        elif r["status"] == "sat":
-            disagreements += 1
-            if r.get("confirmed"):
-                what = "%s: token string %s is %s the grammar as written but %s the canonicalised grammar (parol -u)" % (
-                    r["grammar"], " ".join(r["witness_text"]), "in" if r["in_a"] else "not in", "in" if r["in_b"] else "not in")
-                run.violation(what, {"grammar": r["grammar"], "witness": r["witness"], "witness_text": r["witness_text"], "N": N, "kind": "language"})
-            else:
-                run.inconc("%s: solver witness %s not confirmed by the independent derivation search (encoder defect)" % (r["grammar"], r["witness_text"]))
-        else:
-            run.inconc("%s: %s %s" % (r["grammar"], r["status"], r.get("reason", r.get("error", ""))))
-        if len(samples) < 5 and r["status"] == "unsat":
-            samples.append({"grammar": r["grammar"], "N": N, "terminals": r["terminals"], "productions_written": r["prods_a"],
-                            "productions_canonical": r["prods_b"], "query": "xor of bounded membership", "verdict": "unsat", "solver_s": r["solver_s"]})
-    run.cov.update({
-        "programs": programs, "disagreements_checked": disagreements, "samples": samples or [{"note": "no grammar validated"}],
-        "bound_N_tokens": N, "grammars_in_corpus": len(files), "skipped": skipped[:40], "skipped_count": len(skipped),
-        "queries_discharged": len(res), "solver": "z3 %s" % __import__("z3").get_version_string(), "solver_time_s": round(tsolver, 2),
-        "encoder_selfcheck_grammars": info if ok else 0,
-        "functions_in_loop": ["parol::parser::parol_parser::parse", "ParolGrammar", "to_grammar_config", "transformation::canonicalization::transform_productions", "utils::generate_name", "conversions::par::render_par_string"],
-        "explanation": "for every corpus grammar the solver decides, over ALL token strings of length <= N, that the grammar as written (independent lark reader + textbook EBNF semantics) and the output of the real canonicalisation (parol -u) have the same bounded language",
-    })
-    run.assume("bounded: token strings of length <= %d per grammar; the programs quantifier is covered by the stated corpus only" % N,
-               "trusted: independent PAR reader and CFG->SAT encoder (self-validated on this run against a leftmost-derivation enumerator for all strings <= 4), z3")
+FUNCS = ["parol::parser::parol_parser::parse", "ParolGrammar", "parser::to_grammar_config", "transformation::canonicalization::transform_productions",
+         "utils::generate_name", "conversions::par::render_par_string"]
+
+
+def main():
+    run = GL.lang_main("C09", pick, structural, "the grammar as written", "the canonicalised grammar (parol -u)", FUNCS,
+                       "for every corpus grammar the solver decides, over ALL token strings of length <= N, that the grammar as written (independent lark reader, textbook EBNF semantics) and the output of the real canonicalisation (parol -u) have the same bounded language - for the start symbol and for every user non-terminal separately (a helper name that coincides with a user name changes that non-terminal's language or its alternative count)")
     return run.finish()
 
 
 def replay(path):
-    obj = json.load(open(path))["replay"]
-    from lib.common import parol_bin
-    arts = GL.generate([obj["grammar"]])
-    a = arts[0]
-    if obj.get("kind") == "structural":
-        iss = structural(a["grammar"], a["u"])
-        print(iss)
-        return 1 if iss else 0
-    r = GL.compare_one({"grammar": a["grammar"], "a": a["grammar"], "b": a["u"], "N": max(obj.get("N", 6), len(obj["witness"])), "label": "replay"})
-    print(r)
-    return 1 if r["status"] == "sat" and r.get("confirmed") else 0
+    return GL.lang_replay(path, pick, structural)
